@@ -160,8 +160,13 @@ class LJNode(cabc.Mapping, cabc.Sequence):
         if isinstance(key, int):
             rtn = self._load_or_node(self.offsets[key], self.sizes[key])
         elif isinstance(key, slice):
-            key = slice(*key.indices(len(self)))
-            rtn = list(map(self._load_or_node, self.offsets[key], self.sizes[key]))
+            # Index element by element: re-applying the normalised slice to the
+            # offsets list is wrong for a negative step, whose stop -1 would be
+            # read as "the trailing total slot" (node[::-1] returned []).
+            rtn = [
+                self._load_or_node(self.offsets[i], self.sizes[i])
+                for i in range(*key.indices(len(self)))
+            ]
         else:
             raise TypeError("only integer indexing available")
         return rtn
